@@ -20,6 +20,7 @@ RULE = (
     "the reference formula; relations (monotone, range, round trips, derivative, explicit==instance bitwise, "
     "array_like forms agree) are checked per case. Non-trivial = at least 20 grid points with cdf strictly inside (0,1); "
     "distinct = distinct (family, parameters, form) signature."
+    ' Also: mixed positional/keyword parameter forms with None placeholders; explicit parameter values typed int / numpy int / int array.'
 )
 ASSUMPTIONS = [
     "reference formulas of vmon/refmodel.py (audited against scipy.stats called directly: selftest/ref_audit.py)",
